@@ -105,6 +105,8 @@ type BackendObs struct {
 	RequestURI    string              `json:"request_uri,omitempty"`
 	TransferEncoding []string         `json:"transfer_encoding,omitempty"`
 	Flushes       int                 `json:"flushes,omitempty"`
+	rules         []RulePlan
+	binding       *refBinding
 }
 
 func (b *BackendObs) problem(format string, args ...any) {
@@ -141,6 +143,9 @@ func (h *backendHandler) ServeHTTP(rw http.ResponseWriter, r *http.Request) {
 	obs.Header = r.Header.Clone()
 	obs.ContentLength = r.ContentLength
 	obs.AppHeaders = appHeaders(r.Header)
+	if st.cfg != nil {
+		obs.rules = st.cfg.Rules
+	}
 	bp := &st.plan.Backend
 	defer func() {
 		obs.Returned = true
